@@ -589,6 +589,116 @@ func shapeRules(c *core.Ctx) {
 		c.Decide(len(problems) == 0, rule, key, pos, fmt.Sprintf("%d paths: early exit only for n <= 0; success implies err == nil and count == n; result is the octets read", len(ps)), strings.Join(dedup(problems), "; "))
 	}
 
+	// --- ReadBytes(receiver), all paths: fills the caller's slice completely or records the sticky error. A path that
+	// returns without an error recorded either never read - then len(receiver) == 0 is established - or it read into
+	// receiver itself and has established `err == nil` and `n >= len(receiver)`.
+	if fn, pos := get("Reader", "ReadBytes"); fn == nil || len(fn.Params) != 2 {
+		c.Broken(rule, "packet.Reader.ReadBytes#paths", "method not found")
+	} else {
+		key := "packet.Reader.ReadBytes#paths"
+		recvBuf := ssa.Value(fn.Params[1])
+		isLenRecv := func(v ssa.Value) bool {
+			call, ok := v.(*ssa.Call)
+			if !ok {
+				return false
+			}
+			bi, ok := call.Call.Value.(*ssa.Builtin)
+			return ok && bi.Name() == "len" && call.Call.Args[0] == recvBuf
+		}
+		ps, err := paths.Enumerate(fn, paths.Config{})
+		if err != nil {
+			c.Unknown(rule, key, pos, "path enumeration failed: "+err.Error())
+		} else {
+			var problems []string
+			nRead := 0
+			for _, p := range ps {
+				if p.Aborted != "" {
+					problems = append(problems, "path not analysable: "+p.Aborted)
+					continue
+				}
+				entered, stored, first := false, false, true
+				var read *ssa.Call
+				errNil, cntOK, empty := false, false, false
+				for _, e := range p.Events {
+					switch e.Kind {
+					case paths.EvBranch:
+						if subj, neq, ok := nilTest(e.Cond); ok {
+							if u, isU := subj.(*ssa.UnOp); isU && first {
+								if _, f, isF := fieldOfAddr(u.X); isF && f.Name() == "opError" && neq == e.Taken {
+									entered = true
+								}
+							}
+							if read != nil {
+								if ex, isE := e.Resolve(subj).(*ssa.Extract); isE && ex.Tuple == ssa.Value(read) && ex.Index == 1 && neq != e.Taken {
+									errNil = true
+								}
+							}
+						}
+						first = false
+						bo, ok := e.Cond.(*ssa.BinOp)
+						if !ok {
+							continue
+						}
+						x, y, op := bo.X, bo.Y, bo.Op
+						if !e.Taken {
+							op = map[token.Token]token.Token{token.LSS: token.GEQ, token.GEQ: token.LSS, token.GTR: token.LEQ, token.LEQ: token.GTR, token.EQL: token.NEQ, token.NEQ: token.EQL}[op]
+						}
+						if isLenRecv(y) && !isLenRecv(x) {
+							x, y = y, x
+							op = map[token.Token]token.Token{token.LSS: token.GTR, token.GTR: token.LSS, token.LEQ: token.GEQ, token.GEQ: token.LEQ, token.EQL: token.EQL, token.NEQ: token.NEQ}[op]
+						}
+						if !isLenRecv(x) {
+							continue
+						}
+						// len(receiver) <op> y
+						if k, isK := constInt(y); isK {
+							if (op == token.EQL && k == 0) || (op == token.LEQ && k <= 0) || (op == token.LSS && k <= 1) {
+								empty = true
+							}
+						}
+						if ex, isE := y.(*ssa.Extract); isE && read != nil && ex.Tuple == ssa.Value(read) && ex.Index == 0 {
+							if op == token.LEQ || op == token.EQL {
+								cntOK = true // len(receiver) <= n
+							}
+						}
+					case paths.EvInstr:
+						if st, ok := e.Instr.(*ssa.Store); ok {
+							if _, f, ok := fieldOfAddr(st.Addr); ok && f.Name() == "opError" {
+								stored = true
+							}
+						}
+						if call, ok := e.Instr.(*ssa.Call); ok && strings.HasSuffix(calleeName(call), "bytes.(Buffer).Read") {
+							if read != nil || call.Call.Args[1] != recvBuf {
+								problems = append(problems, "the buffer is not read exactly once, into the caller's slice")
+							}
+							read = call
+						}
+					}
+				}
+				if entered || stored {
+					continue
+				}
+				if read == nil {
+					if !empty {
+						problems = append(problems, "a path returns without reading and without an error although len(receiver) == 0 is not established: the field is skipped and every later field is read from the wrong offset")
+					}
+					continue
+				}
+				nRead++
+				if !errNil {
+					problems = append(problems, "a path that read from the buffer returns without `err == nil` having been established")
+				}
+				if !cntOK {
+					problems = append(problems, "a path that read from the buffer returns without `n >= len(receiver)` having been established: a short read (input ending inside the field) is reported as success")
+				}
+			}
+			if nRead == 0 {
+				problems = append(problems, "no path reads into the caller's slice and succeeds")
+			}
+			c.Decide(len(problems) == 0, rule, key, pos, fmt.Sprintf("%d paths: early exit only for an empty slice; success implies err == nil and n >= len(receiver)", len(ps)), strings.Join(dedup(problems), "; "))
+		}
+	}
+
 	// --- every buffer operation that can fail, in every Reader/Writer method, all paths: a path on which the operation
 	// ran and no sticky error was recorded afterwards has established `err == nil` for it (a test that lets some errors
 	// through - e.g. `err != nil && err != io.EOF` - leaves a path without that fact)
